@@ -1,19 +1,88 @@
 (* C04 - Decode accepts exactly the well-formed encodings and reports what they denote.
-   Statements only.  (Grows with the soundness / completeness development.) *)
+   Statements only.  The specification is Denote.v: a schema-free TTLV splitter (every item fits in
+   what is there, the items tile each structure exactly) and a schema matcher (mandated lengths,
+   Booleans 0/1, required fields present, nothing left over, values field by field).  DenoteProofs.v
+   proves that the decoder model (Codec.v, tied to /repo by the codec correspondence on every run,
+   where the implementation is also compared with the extracted specification itself) and the
+   specification are the same partial function - for EVERY schema and EVERY byte string. *)
 From Coq Require Import String.
 From Coq Require Import List NArith ZArith.
-Require Import Bytes Schema Codec CodecProofs CodecRT.
+Require Import Bytes Schema Codec CodecProofs CodecRT Denote DenoteProofs Generated Instance InstanceProofs.
 Import ListNotations.
 Open Scope N_scope.
 
-(* the decoder decides: on every input it accepts (Ok) or rejects (an error), never diverges *)
+(* GENERIC, both directions at once: on a decoder without look-ahead positioned on [bs], Decode into a
+   structure type returns nil with value v having consumed n bytes  <=>  the specification accepts
+   bs with value v and message length n (n = 8 + the declared length, so the stream stays in sync) *)
+Theorem C04_decoder_is_spec : forall ty tag fl bs v n st',
+  tag <> ANY_TAG ->
+  (dec_top ty tag fl {| rest := bs; last := 0 |} = Ok (v, n, st') <->
+   spec_decode ty tag fl bs = Some (v, n) /\ st' = {| rest := skipn (N.to_nat n) bs; last := 0 |}).
+Proof. exact decoder_is_spec. Qed.
+Print Assumptions C04_decoder_is_spec.
+
+(* soundness alone: Decode succeeds only on well-formed input and returns what it denotes *)
+Theorem C04_sound : forall ty tag fl bs v n st',
+  tag <> ANY_TAG -> dec_top ty tag fl {| rest := bs; last := 0 |} = Ok (v, n, st') ->
+  spec_decode ty tag fl bs = Some (v, n) /\ st' = {| rest := skipn (N.to_nat n) bs; last := 0 |}.
+Proof. exact dec_top_sound. Qed.
+Print Assumptions C04_sound.
+
+(* completeness alone: every valid encoding - canonical or not - is accepted with the value it denotes *)
+Theorem C04_complete : forall ty tag fl bs v n,
+  spec_decode ty tag fl bs = Some (v, n) ->
+  dec_top ty tag fl {| rest := bs; last := 0 |} = Ok (v, n, {| rest := skipn (N.to_nat n) bs; last := 0 |}).
+Proof. exact dec_top_complete. Qed.
+Print Assumptions C04_complete.
+
+(* what is not well-formed is rejected, with one of the two error classes, never silently *)
+Theorem C04_rejects : forall ty tag fl bs, tag <> ANY_TAG ->
+  (spec_decode ty tag fl bs = None <->
+   dec_top ty tag fl {| rest := bs; last := 0 |} = Err \/ dec_top ty tag fl {| rest := bs; last := 0 |} = ErrEOF).
+Proof. exact decoder_rejects. Qed.
+Print Assumptions C04_rejects.
+
+(* hence no truncation of a valid message is accepted *)
+Theorem C04_truncation_rejected : forall ty tag fl bs v n k,
+  tag <> ANY_TAG -> spec_decode ty tag fl bs = Some (v, n) -> (k < N.to_nat n)%nat ->
+  spec_decode ty tag fl (firstn k bs) = None.
+Proof. exact truncation_rejected. Qed.
+Print Assumptions C04_truncation_rejected.
+
+(* the splitter is exact: what it accepts is the concatenation of the items it returns, each with a
+   24-bit tag, an 8-bit type, its value of the declared length and padding to the next multiple of 8 -
+   so no item over- or understates its content; and every such concatenation is accepted *)
+Theorem C04_split_exact : forall bs its, split_items bs = Some its <-> Forall item_wf its /\ bs = flat_raw its.
+Proof. exact split_items_exact. Qed.
+Print Assumptions C04_split_exact.
+
+(* the decider never runs out of fuel *)
 Theorem C04_decides : forall ty tag fl st, dec_top ty tag fl st <> OutOfFuel.
 Proof. exact dec_top_total. Qed.
 Print Assumptions C04_decides.
 
-(* completeness on primitives: every canonical primitive item is accepted with the value it denotes *)
-Theorem C04_primitive_complete : forall k tag v b tl st,
-  tag <> 0 -> tag < 2 ^ 24 -> wf_prim k v -> enc_prim tag k v = Some b -> at_item tag b tl st ->
-  dec_prim k tag st = Ok (v, blen b, {| rest := tl; last := 0 |}).
-Proof. exact dec_prim_enc. Qed.
-Print Assumptions C04_primitive_complete.
+(* INSTANCE: for every struct type of the tree regenerated on this run *)
+Theorem C04_instance : forall ty bs v n st',
+  inst_dec_top ty bs = Ok (v, n, st') <->
+  inst_spec_decode ty bs = Some (v, n) /\ st' = {| rest := skipn (N.to_nat n) bs; last := 0 |}.
+Proof. exact inst_decoder_is_spec. Qed.
+Print Assumptions C04_instance.
+
+(* non-vacuity: a RequestHeader spelling out Maximum Response Size = 0 is accepted and denotes the same
+   value as the canonical encoding; a missing required field, a left-over item, an understated length,
+   a Boolean 2 and a truncation are rejected *)
+Theorem C04_example_noncanonical :
+  inst_spec_decode "RequestHeader" hdr_noncanonical = Some (hdr_value, blen hdr_noncanonical) /\
+  inst_spec_decode "RequestHeader" hdr_canonical = Some (hdr_value, blen hdr_canonical) /\
+  inst_enc_top hdr_value = Some hdr_canonical /\ hdr_noncanonical <> hdr_canonical.
+Proof. exact noncanonical_accepted. Qed.
+Print Assumptions C04_example_noncanonical.
+
+Theorem C04_example_rejections :
+  inst_spec_decode "RequestHeader" hdr_no_batchcount = None /\
+  inst_spec_decode "RequestHeader" hdr_trailing = None /\
+  inst_spec_decode "RequestHeader" hdr_understated = None /\
+  inst_spec_decode "RequestHeader" hdr_bad_bool = None /\
+  inst_spec_decode "RequestHeader" (firstn 40 hdr_canonical) = None.
+Proof. exact malformed_rejected. Qed.
+Print Assumptions C04_example_rejections.
